@@ -221,15 +221,27 @@ def access_cases():
     for r_ in range(0, 4):
         for sub in itertools.permutations(groups, r_):
             yield sub
+    # the same for every built-in agent class (a market maker's target market may lie outside what the group lists)
+    for cls in ("FCNAgent", "MarketShareFCNAgent", "MarketMakerAgent", "ArbitrageAgent"):
+        for sub in ((), ("G0",), ("G2", "G0"), ("G1",), ("G0", "G1", "G2")):
+            yield sub + ("class:" + cls,)
 
 
 def access_fn(case, wit):
+    cls = "TestAgent"
+    if case and case[-1].startswith("class:"):
+        cls, case = case[-1][6:], case[:-1]
+    extra = {"TestAgent": {},
+             "FCNAgent": {"fundamentalWeight": 1.0, "chartWeight": 0.0, "noiseWeight": 0.0, "noiseScale": 0.001, "timeWindowSize": 3, "orderMargin": 0.0},
+             "MarketMakerAgent": {"targetMarket": "G1", "netInterestSpread": 0.02},
+             "ArbitrageAgent": {"orderVolume": 1, "orderThresholdPrice": 1.0}}
+    extra["MarketShareFCNAgent"] = extra["FCNAgent"]
     cfg = {"simulation": {"markets": ["G0", "G1", "G2"], "agents": ["A", "Z"] if case else ["A"], "sessions": []},
            "Z": {"class": "TestAgent", "markets": [case[0]] if case else [], "cashAmount": 1, "assetVolume": 1, "numAgents": 1},
            "G0": {"class": "Market", "tickSize": 1.0, "marketPrice": 100.0, "numMarkets": 2},
            "G1": {"class": "Market", "tickSize": 1.0, "marketPrice": 100.0},
            "G2": {"class": "Market", "tickSize": 1.0, "marketPrice": 100.0, "from": 0, "to": 0},
-           "A": {"class": "TestAgent", "markets": list(case), "cashAmount": 1, "assetVolume": 1, "numAgents": 2}}
+           "A": dict({"class": cls, "markets": list(case), "cashAmount": 1, "assetVolume": 1, "numAgents": 2}, **extra[cls])}
     r = SequentialRunner(cfg, random.Random(0))
     r._setup()
     sim = r.simulator
@@ -253,7 +265,7 @@ def access_fn(case, wit):
             raise Violation("C18.access", "an agent can access markets other than exactly those of the groups it lists",
                             "lists %s: accessible %s expected %s" % (list(case), sorted(got), sorted(want)))
     wit.inc("access_subset")
-    return tuple(sorted(want))
+    return (cls,) + tuple(sorted(want))
 
 # ---------------------------------------------------------------------------------------------- 4
 
